@@ -377,6 +377,32 @@ def _disable_measurements(init):
     return [c for c in feeding if not any(c is x for x in trunc)]
 
 
+@rule('C19.R7', min_instances=1)
+def datagram_is_read_as_utf8_text(ctx):
+    """a discovery request is the UTF-8 JSON text {"SECoP": "discover"}: the datagram is decoded with the UTF-8 codec BEFORE the
+    JSON parser sees it.  json.loads on the raw bytes guesses the encoding (UTF-16 / UTF-32 in either byte order, UTF-8 with
+    BOM) - datagrams that are not valid UTF-8 would be answered"""
+    m = ctx.m
+    f = m.method(UDP, 'run', inherited=False)
+    ctx.analysed(f)
+    loads = [c for c in calls_in(f.node) if call_name(c) in ('json.loads', 'loads') and c.args]
+    if not loads:
+        raise AnchorMissing('json.loads of the datagram not found in UDPListener.run', violation=f'{f.qualname}:request parsed as JSON')
+    for c in loads:
+        a = resolved(c.args[0], f.node)
+        dec = [x for x in ast.walk(a) if isinstance(x, ast.Call) and (call_attr(x) == 'decode' or dotted(x.func) == 'str')]
+        ok = False
+        for x in dec:
+            codec = x.args[0] if call_attr(x) == 'decode' and x.args else (kwarg(x, 'encoding') or (x.args[1] if dotted(x.func) == 'str' and len(x.args) > 1 else None))
+            if codec is None and call_attr(x) == 'decode':
+                ok = True
+            elif isinstance(codec, ast.Constant) and str(codec.value).lower().replace('_', '-') in ('utf-8', 'utf8'):
+                ok = True
+        ctx.check(ok, f'{f.qualname}:datagram decoded as UTF-8 before parsing', c, '`json.loads(<bytes>.decode(\'utf-8\'))`',
+                  f'`{src(c)}` hands the received bytes to the JSON parser without decoding them as UTF-8: json.loads detects UTF-16 / UTF-32 / a BOM by itself, '
+                  'so a datagram that is not a UTF-8 discovery request is answered', f)
+
+
 @rule('C19.R2c', min_instances=1)
 def disabled_only_when_the_identity_does_not_fit(ctx):
     """the responder is switched off only when the identity alone (message with an empty description) exceeds the budget:
